@@ -88,7 +88,10 @@ OnEnqueueSend(ev) ==
   /\ calls' = [calls EXCEPT ![ev.c].accepted = TRUE, ![ev.c].accT = ev.t,
                             ![ev.c].beforeShut = ~shutCalled, ![ev.c].heldBack = Saturated]
   /\ admitted' = admitted \cup {calls[ev.c].combo}
-  /\ UNCHANGED <<cfg, exps, cancelled, shutCalled, shutReturned, viol>>
+  \* a request is handed to a shard although its combination is one too many (e.g. through a shard that was stored but
+  \* never admitted)
+  /\ viol' = viol \cup If(Multi /\ L > 0 /\ Cardinality(admitted \cup {calls[ev.c].combo}) > L, V("C10", "LimitExceeded", ev))
+  /\ UNCHANGED <<cfg, exps, cancelled, shutCalled, shutReturned>>
 
 OnAdmitNew(ev) ==
   /\ admitted' = admitted \cup {ev.s}
@@ -231,6 +234,10 @@ OnStuck(ev) ==
   LET excused == ev.k = "call" /\ shutCalled /\ ~(calls[ev.c].accepted /\ calls[ev.c].beforeShut)
   IN /\ viol' = viol \cup
           If(ev.k = "call" /\ ~excused, V("C06", "CallNeverReturns", ev))
+          \* a caller whose own context is alive never learns the outcome although a DIFFERENT caller's context was
+          \* cancelled: that cancellation made its export (or the delivery of its outcome) be skipped
+          \cup If(ev.k = "call" /\ ~excused /\ calls[ev.c].accepted /\ calls[ev.c].x \notin cancelled /\ cancelled # {},
+                  V("C18", "CallerStalledAfterForeignCancellation", ev))
           \cup If(ev.k = "call" /\ ~excused, V("C11", "Deadlock", ev))
           \cup If(ev.k = "shutdown", V("C11", "ShutdownNeverReturns", ev))
      /\ UNCHANGED <<cfg, calls, exps, cancelled, admitted, shutCalled, shutReturned>>
